@@ -193,6 +193,10 @@ class Engine(Conc, Executor, Calls):
         if "." in n:
             al, tn = n.split(".", 1)
             full = ir.alias.get(al, al) + "." + tn
+            if full not in ir.types:
+                for path in ir.dep_alias.get(al, []):
+                    if path + "." + tn in ir.types:
+                        full = path + "." + tn
         else:
             full = pkg + "." + n
         if full not in ir.types:
@@ -547,11 +551,16 @@ class Engine(Conc, Executor, Calls):
 
     def eval_loop_clause(self, fr, st, cl, extra_names=None):
         c = self.cur
-        names = dict(c["names"])
-        names.update(self.local_names(fr, st))
+        names = self.local_names(fr, st)
+        names.update(c["names"])          # parameters win over same-named selector identifiers
         if extra_names:
             names.update(extra_names)
-        ctx = SpecCtx(self, st, c["entry"], names, fr_pkg=fr.fn["pkg"])
+        entry = c["entry"]
+        for h in reversed(st.held):
+            if h[2] is not None:
+                entry = h[2]          # inside a critical section `old` is the state when the lock was taken
+                break
+        ctx = SpecCtx(self, st, entry, names, fr_pkg=fr.fn["pkg"])
         ctx.name_types = dict(c["name_types"])
         ctx.loop_frame = fr
         ctx.loop_head = fr.blk
@@ -607,6 +616,17 @@ class Engine(Conc, Executor, Calls):
                 o.unknown.append({"reason": "spec error: %s" % e})
                 continue
             self.record(o, st, goal, None)
+        # map ranges advanced inside the loop: the set of keys produced so far becomes an arbitrary set
+        for b in body:
+            for ins in fr.fn["blocks"][b]["instrs"]:
+                if ins["op"] == "Next" and ins["args"][0]["k"] == "v":
+                    r = fr.env.get(ins["args"][0]["n"])
+                    if isinstance(r, OpaqueV) and isinstance(r.data, dict):
+                        vk = ("visited", r.data["id"])
+                        had = vk in st.ghost
+                        if not had:
+                            st.ghost[vk] = (None, [])      # nothing visited before the loop: checked by loop-init
+                        fr.env["$range_pending"] = vk
         # havoc loop-carried SSA values
         for ins in phis:
             fr.env[ins["name"]] = st.fresh(ins["type"], "loop_" + ins["name"])
@@ -660,6 +680,10 @@ class Engine(Conc, Executor, Calls):
                         c0 = st.map_contents(v)
                         st.heap[v.cell] = MapC(z3.Const(fresh_name("mapbase"), z3.IntSort()), (), c0.kt, c0.vt)
                         st.writes.append((v.cell, ()))
+        vk = fr.env.pop("$range_pending", None)
+        if vk is not None:
+            st.ghost[vk] = (fresh_name("vis"), [])
+            st.ghost["last_visited"] = vk
         for cl in invs:
             try:
                 st.assume(self.eval_loop_clause(fr, st, cl))
